@@ -68,6 +68,13 @@ def signature(ref, nb):
         if isinstance(c, dict) and isinstance(c.get('outputs'), list) and any(o == {} for o in c['outputs']):
             c['outputs'] = [o for o in c['outputs'] if o != {}]; hit = True
     if hit: sigs.append('cleared-output-is-empty-dict')
+    if sigs and ref.is_valid(key, fixed): return sigs, detail
+    hit = False
+    for c in cells:
+        tags = c.get('metadata', {}).get('tags') if isinstance(c, dict) and isinstance(c.get('metadata'), dict) else None
+        if isinstance(tags, list) and all(isinstance(x, str) for x in tags) and len(set(tags)) < len(tags):
+            seen = set(); c['metadata']['tags'] = [x for x in tags if not (x in seen or seen.add(x))]; hit = True
+    if hit: sigs.append('merged-cell-tags-not-unique')
     if sigs and ref.is_valid(key, fixed):
         # keep only the repairs that are needed
         return sigs, detail
